@@ -13,7 +13,7 @@ from ..lib import call_impl
 
 PROP = "C14"
 RULE = ("cases: (1) exhaustive: every way to put <=5 (quick) / <=7 (thorough) rows with scores from {1,2,3} into "
-        "<=3 inputs (0 inputs and empty inputs included), each input sorted; each shape is run through the table "
+        "<=3 inputs (0 inputs; every 4th of the shapes with an empty input), each input sorted; each shape is run through the table "
         "merger descending (row iterator) and ascending (read / chunked / merge_readers / row types in rotation) and "
         "through utils.merge_sort on real tsv files (Parquet for every 3rd), reader chunk sizes rotating over 1..n+1; "
         "(2) random sorted inputs: 1..8 inputs of 1..N rows, score pools of 1..10^6 values (dense ties to none), int and "
